@@ -214,7 +214,7 @@ impl Property for C12Prop {
         out.set_key(&e);
         classify(&e, out);
         if ctx.render {
-            out.render = Some(format!("{}   [{:?}]", e.to_quil_or_debug(), e));
+            out.render = Some(e.to_quil_or_debug());
         }
         oracle(&e, out, true)
     }
